@@ -8,17 +8,27 @@ import common as c
 
 PID = "C17"
 MANIFEST = {
-    "text": "23 Coq theorems over the unit table regenerated from the built crate on every run: exhaustive (vm_compute, "
+    "text": "41 Coq theorems over the unit table regenerated from the built crate on every run: exhaustive (vm_compute, "
             "bound = the table) identifier resolution / no duplicates / alias / ambiguity / category / prefix-ratio / "
             "well-formedness theorems; unbounded theorems on resolve_unit for every string and table; self-conversion "
             "identity in every arithmetic (bit-exact in binary64); exact-rational there-and-back and composition laws about "
-            "the same conversion code that is run in binary64 against units::convert and the convert built-in; a Flocq "
-            "relative-error bound (4 roundings of 2^-53) for binary64 there-and-back between linear units",
+            "the same conversion code that is run in binary64 against units::convert and the convert built-in; binary64 "
+            "(Flocq) error bounds for EVERY conversion kind, stated down to the convert built-in on identifiers: "
+            "there-and-back <= ((1+2^-53)^4-1)|v| linear, (qq^4-1)|v| with a reciprocal unit, absolute "
+            "2^-53(1+1/1024)(A|v|+B) for the temperature kind (9 constant pairs), composition A>B>C vs A>C <= "
+            "(qq^6-1)|fl(A>C)| linear/reciprocal and an absolute bound for temperature (27 constant pairs); the range "
+            "hypotheses are a decidable exponent condition proved sufficient and proved by vm_compute for every pair / "
+            "triple of linear or reciprocal units of one category of the table, for all valid v with 2^-40 <= |v| <= 2^40 and, "
+            "as separate _wide theorems, 2^-800 <= |v| <= 2^800 "
+            "(temperature: every finite |v| <= 2^1000); the implementation-level search uses exactly the proved bounds as "
+            "tolerances (exact rational comparison; the temperature constants are compared with the Coq tables every run)",
     "note": "trusted: Coq kernel + vm_compute; harness dump-units (reflective dump of get_all_units()); the hand "
             "transcription of resolve_unit/convert (validated by the UNITS/RESOLVE/LOWER/BUILTIN correspondence streams); "
-            "Rust to_lowercase modelled only on ASCII + the dumped non-ASCII characters; binary64 bounds for reciprocal / "
-            "temperature kinds and for composition are tested (impl-level search), not proved; axioms: none except the "
-            "allow-listed real-number axioms under the Flocq theorem",
+            "Rust to_lowercase modelled only on ASCII + the dumped non-ASCII characters; PARTIAL: the float theorems for "
+            "the linear/reciprocal kinds cover 2^-800 <= |v| <= 2^800 (zero: exact over Q only; outside the window the search "
+            "falls back to 4/6 ulp, counted in the evidence); mixed-kind categories do not exist in the table (proved "
+            "exhaustively) and are not covered; the prefix-ratio law is tested at 2 ulp, its binary64 bound is not proved; "
+            "axioms: none except the allow-listed real-number/classical axioms under the Flocq theorems",
     "design_ref": "notes/C17.md (DESIGN.md section 6 C17)",
 }
 
@@ -195,6 +205,24 @@ MAG_FIXED = [10.0 ** k for k in range(-12, 13)] + [0.0, -0.0, -1.0, -1e-12, -1e1
                                                     123456.789, 0.1, 1.0 / 3.0, 98.6, 7.5, -2.5e-7]
 
 
+TEMP_SPECIAL = [-273.15, -459.67, 0.0, -0.0, 32.0, 273.15, 255.3722222222222, -40.0, 100.0, 212.0, 373.15, 1e-300, -1e-300,
+                5e-324, 1e300, -1e300, 0.01, -273.15000000000003, -273.14999999999998, 31.999999999999996]
+
+
+def special_magnitude(rng, temperature):
+    """magnitudes for the reciprocal / temperature kinds: temperature takes any finite |v| <= 2^1000 (offsets, zero,
+    subnormal, huge); the others a random mantissa times 2^e, e mostly in [-40, 39], else in the wide proved window [-790, 789]"""
+    if temperature and rng.chance(1, 4):
+        return rng.choice(TEMP_SPECIAL)
+    mant = 1.0 + rng.below(1 << 52) / float(1 << 52)
+    if temperature:
+        e = rng.below(41) - 20 if rng.chance(2, 3) else rng.below(1901) - 950
+    else:
+        e = rng.below(80) - 40 if rng.chance(9, 10) else rng.below(1580) - 790
+    x = mant * 2.0 ** e
+    return -x if rng.chance(1, 3) else x
+
+
 def magnitudes(rng, n):
     """n magnitudes: fixed interesting ones first in rotation + random mantissas with decimal exponent in [-12, 12]"""
     out = []
@@ -350,6 +378,113 @@ def temperature_tolerance(vals):
     return 8 * ulp_of(9.0 * m)
 
 
+# ----------------------------------------------------------------------------- the PROVED binary64 bounds
+# (coq/Properties/C17.v; the implementation-level search uses exactly these, compared in exact rational arithmetic)
+from fractions import Fraction as _Fr
+
+U53 = _Fr(1, 2 ** 53)                       # u53
+QQ = 1 / (1 - U53)                          # qq = 1/(1 - 2^-53)
+BOUND_TAB_LINEAR = (1 + U53) ** 4 - 1       # C17_there_and_back_float_linear_table: |r - v| <= this * |v|
+BOUND_TAB_LR = QQ ** 4 - 1                  # C17_there_and_back_float_table (linear/reciprocal mix)
+BOUND_COMP_LR = QQ ** 6 - 1                 # C17_composition_float_table: |fl(A>B>C) - fl(A>C)| <= this * |fl(A>C)|
+KV = 40                                     # hypothesis of those theorems: 2^-40 <= |v| <= 2^40
+KW = 800                                    # ... and of their _wide forms: 2^-800 <= |v| <= 2^800
+# C17_there_and_back_float_temperature: |r - v| <= 2^-53 * (1 + 1/1024) * (A*|v| + B), (A, B) by the to_kelvin functions
+TEMP_AB = {
+    ("TF_kelvin_to_kelvin", "TF_kelvin_to_kelvin"): (0, 0),
+    ("TF_kelvin_to_kelvin", "TF_celsius_to_kelvin"): (2, 274), ("TF_celsius_to_kelvin", "TF_kelvin_to_kelvin"): (2, 274),
+    ("TF_kelvin_to_kelvin", "TF_fahrenheit_to_kelvin"): (8, 2037), ("TF_fahrenheit_to_kelvin", "TF_kelvin_to_kelvin"): (8, 3666),
+    ("TF_celsius_to_kelvin", "TF_celsius_to_kelvin"): (4, 1093),
+    ("TF_celsius_to_kelvin", "TF_fahrenheit_to_kelvin"): (10, 4495), ("TF_fahrenheit_to_kelvin", "TF_celsius_to_kelvin"): (10, 5205),
+    ("TF_fahrenheit_to_kelvin", "TF_fahrenheit_to_kelvin"): (16, 11521),
+}
+TEMP_VMAX = _Fr(2) ** 1000
+# C17_composition_float_temperature: |fl(A>B>C) - fl(A>C)| <= 2^-53 * (1 + 1/1024) * (A*|v| + B), by (A, B, C) kinds
+_TK = {"K": "TF_kelvin_to_kelvin", "C": "TF_celsius_to_kelvin", "F": "TF_fahrenheit_to_kelvin"}
+TCOMP_AB = {(_TK[k[0]], _TK[k[1]], _TK[k[2]]): ab for k, ab in {
+    "KKK": (0, 1), "KKC": (2, 547), "KKF": (15, 3998),
+    "KCK": (2, 274), "KCC": (4, 820), "KCF": (18, 4490),
+    "KFK": (8, 2037), "KFC": (10, 2584), "KFF": (29, 7664),
+    "CKK": (2, 547), "CKC": (4, 1640), "CKF": (18, 8915),
+    "CCK": (4, 1367), "CCC": (6, 2459), "CCF": (22, 10390),
+    "CFK": (10, 4769), "CFC": (12, 5861), "CFF": (33, 16514),
+    "FKK": (5, 689), "FKC": (6, 1817), "FKF": (16, 9427),
+    "FCK": (6, 1544), "FCC": (7, 2672), "FCF": (18, 10966),
+    "FFK": (9, 5053), "FFC": (10, 6181), "FFF": (24, 17282),
+}.items()}
+
+
+def _finite(bits):
+    return (bits >> 52) & 0x7FF != 0x7FF
+
+
+def _exact(bits):
+    return _Fr(b2f(bits))
+
+
+def _window(av):
+    """"" inside [2^-40, 2^40], "_wide" inside [2^-800, 2^800], None outside"""
+    if _Fr(1, 2 ** KV) <= av <= _Fr(2 ** KV):
+        return ""
+    if _Fr(1, 2 ** KW) <= av <= _Fr(2 ** KW):
+        return "_wide"
+    return None
+
+
+_FROM_TO = {"TF_kelvin_to_celsius": "TF_celsius_to_kelvin", "TF_kelvin_to_fahrenheit": "TF_fahrenheit_to_kelvin",
+            "TF_kelvin_to_kelvin": "TF_kelvin_to_kelvin"}
+
+
+def temp_key(u):
+    """the to_kelvin function a temperature unit is SUPPOSED to have (when a mutation makes one of its two function
+    pointers unrecognisable, the other one still says which unit it is, so the proved bound still applies)"""
+    return u.get("to") or _FROM_TO.get(u.get("from"))
+
+
+def proved_tab_bound(u, x, vbits):
+    """(absolute bound as a Fraction, which theorem) for there-and-back u -> x -> u on value v, or (None, why) when
+    (u, x, v) is outside the hypotheses of every proved float theorem"""
+    if not _finite(vbits):
+        return None, "non-finite value"
+    av = abs(_exact(vbits))
+    ku, kx = u["kind"], x["kind"]
+    if ku == "temperature" and kx == "temperature":
+        ab = TEMP_AB.get((temp_key(u), temp_key(x)))
+        if ab is None or av > TEMP_VMAX:
+            return None, "temperature function not identified"
+        return U53 * (1 + _Fr(1, 1024)) * (ab[0] * av + ab[1]), "C17_there_and_back_float_temperature"
+    if ku == "temperature" or kx == "temperature":
+        return None, "temperature mixed with another kind"
+    if av == 0:
+        return _Fr(0), "zero (exact: 0*c/c = 0, c/inf = 0; C17_there_and_back_Q)"
+    w = _window(av)
+    if w is None:
+        return None, "|v| outside [2^-800, 2^800]"
+    if ku == "linear" and kx == "linear":
+        return BOUND_TAB_LINEAR * av, "C17_there_and_back_float_linear_table" + w
+    return BOUND_TAB_LR * av, ("C17_there_and_back_float_table" if w == "" else "C17_builtin_there_and_back_float_wide")
+
+
+def proved_comp_bound(us, vbits, r3bits):
+    """bound on |fl(A>B>C) - fl(A>C)| (C17_composition_float_table), or (None, why)"""
+    if not _finite(vbits) or not _finite(r3bits):
+        return None, "non-finite value"
+    if all(u["kind"] == "temperature" for u in us):
+        ab = TCOMP_AB.get(tuple(temp_key(u) for u in us))
+        if ab is None or abs(_exact(vbits)) > TEMP_VMAX:
+            return None, "temperature function not identified"
+        return U53 * (1 + _Fr(1, 1024)) * (ab[0] * abs(_exact(vbits)) + ab[1]), "C17_composition_float_temperature"
+    if any(u["kind"] == "temperature" for u in us):
+        return None, "temperature mixed with another kind"
+    av = abs(_exact(vbits))
+    if av == 0:
+        return _Fr(0), "zero (exact)"
+    w = _window(av)
+    if w is None:
+        return None, "|v| outside [2^-800, 2^800]"
+    return BOUND_COMP_LR * abs(_exact(r3bits)), ("C17_composition_float_table" if w == "" else "C17_builtin_composition_float_wide")
+
+
 # ----------------------------------------------------------------------------- laws on the implementation
 class Laws:
     def __init__(self, tb, impl, res, known_ids):
@@ -361,6 +496,17 @@ class Laws:
         self.counts = {}
         self.known_hits = {"C17-self-float": 0, "C17-dup-ident": 0}
         self.fail_count = 0
+        self.tol = {}                       # which tolerance decided each float comparison
+        self.tol_ratio = {}                 # largest observed error / proved bound, per theorem
+
+    def ratio(self, which, err, bound):
+        if bound > 0:
+            r = float(err / bound)
+            if r > self.tol_ratio.get(which, -1.0):
+                self.tol_ratio[which] = r
+
+    def tol_count(self, which):
+        self.tol[which] = self.tol.get(which, 0) + 1
 
     def count(self, law, n=1):
         self.counts[law] = self.counts.get(law, 0) + n
@@ -485,6 +631,30 @@ def law_search(tb, impl, res, rng, tier, known, pool=None):
             if usable(ou):
                 plan_cross.append((rng.choice(ids), rng.choice(usable(ou)), f2b(1.0)))
                 plan_cross.append((rng.choice(usable(ou)), rng.choice(ids), f2b(-2.5)))
+    # ---- extra density on the kinds whose binary64 bounds are proved separately (reciprocal: 2 units, temperature: 3)
+    for cat, us in sorted(cats.items()):
+        if all(u["kind"] == "linear" for u in us):
+            continue
+        nx = 120 if tier == "quick" else 1500
+        for u in us:
+            for x in us:
+                if x is u or not usable(u) or not usable(x):
+                    continue
+                for _ in range(nx):
+                    v = special_magnitude(rng, u["kind"] == "temperature" and x["kind"] == "temperature")
+                    plan_pair.append((u, x, rng.choice(usable(u)), rng.choice(usable(x)), f2b(v)))
+        for u in us:
+            for x in us:
+                for y in us:
+                    if x is u or y is x or not (usable(u) and usable(x) and usable(y)):
+                        continue
+                    for _ in range(max(1, nx // 6)):
+                        v = special_magnitude(rng, all(z["kind"] == "temperature" for z in (u, x, y)))
+                        plan_triple.append((u, x, y, rng.choice(usable(u)), rng.choice(usable(x)), rng.choice(usable(y)), f2b(v)))
+    L.kind_pairs = {}
+    for u, x, _a, _b, _v in plan_pair:
+        k = "%s>%s" % (u["kind"], x["kind"])
+        L.kind_pairs[k] = L.kind_pairs.get(k, 0) + 1
     # phase 1
     reqs = [(a, b, v) for _, a, b, v in plan_self]
     for u, c0, al, x, v in plan_alias:
@@ -527,7 +697,8 @@ def law_search(tb, impl, res, rng, tier, known, pool=None):
         if impl.get(x, c0, v) != impl.get(x, al, v):
             L.fail("two identifiers of one unit convert differently (as target)", {"unit": canon(u)},
                    [(x, c0, v), (x, al, v)])
-    # ---- L4 there and back within rounding (4 ulp = 4 roundings of relative error 2^-53)
+    # ---- L4 there and back within rounding: the tolerance IS the proved bound (exact rational comparison);
+    #      outside the hypotheses of the float theorems (never with today's magnitudes) the old 4-ulp rule
     for u, x, a, b, v in plan_pair:
         L.count("there-and-back")
         r1 = ok_bits(impl.get(a, b, v))
@@ -535,21 +706,51 @@ def law_search(tb, impl, res, rng, tier, known, pool=None):
             L.fail("units of one category do not convert", {"from": canon(u), "to": canon(x)}, [(a, b, v)])
             continue
         r2 = ok_bits(impl.get(b, a, r1))
-        if r2 is None or not close_enough(tb, [u, x], r2, v, 4, [b2f(v), b2f(r1)]):
-            L.fail("converting there and back does not return the original value within rounding",
-                   {"from": canon(u), "to": canon(x), "ulps": None if r2 is None else ulp_dist(r2, v)},
+        bound, why = proved_tab_bound(u, x, v)
+        if r2 is not None and bound is not None and _finite(r2):
+            L.tol_count("proved: " + why)
+            err = abs(_exact(r2) - _exact(v))
+            good = err <= bound
+            L.ratio(why, err, bound)
+        elif r2 is not None and bound is not None:
+            L.tol_count("proved: " + why)
+            err, good = None, False
+        else:
+            L.tol_count("unproved (4 ulp / old absolute temperature tolerance): " + why)
+            err = None
+            good = r2 is not None and close_enough(tb, [u, x], r2, v, 4, [b2f(v), b2f(r1)])
+        if not good:
+            L.fail("converting there and back does not return the original value within the proved rounding bound",
+                   {"from": canon(u), "to": canon(x), "ulps": None if r2 is None else ulp_dist(r2, v),
+                    "bound": None if bound is None else float(bound), "error": None if err is None else float(err),
+                    "theorem": why},
                    [(a, b, v), (b, a, r1)])
-    # ---- L5 composition A->B->C = A->C (6 ulp: 4 roundings on one side, 2 on the other)
+    # ---- L5 composition A->B->C = A->C: proved bound (qq^6 - 1) * |fl(A->C)| for linear/reciprocal units;
+    #      temperature triples: proved absolute bound tcomp_bound
     for u, x, y, a, b, cc, v in plan_triple:
         L.count("composition")
         r1 = ok_bits(impl.get(a, b, v))
         r3 = ok_bits(impl.get(a, cc, v))
         r2 = ok_bits(impl.get(b, cc, r1)) if r1 is not None else None
-        if r1 is None or r2 is None or r3 is None or \
-                not close_enough(tb, [u, x, y], r2, r3, 6, [b2f(v), b2f(r1), b2f(r3)]):
-            L.fail("converting A to B to C differs from converting A to C beyond rounding",
+        bound, why, err = None, "a conversion failed", None
+        if None not in (r1, r2, r3):
+            bound, why = proved_comp_bound([u, x, y], v, r3)
+        if bound is not None and _finite(r2):
+            L.tol_count("proved: " + why)
+            err = abs(_exact(r2) - _exact(r3))
+            good = err <= bound
+            L.ratio(why, err, bound)
+        elif None not in (r1, r2, r3):
+            L.tol_count("unproved (6 ulp / old absolute temperature tolerance): " + why)
+            good = close_enough(tb, [u, x, y], r2, r3, 6, [b2f(v), b2f(r1), b2f(r3)])
+        else:
+            good = False
+        if not good:
+            L.fail("converting A to B to C differs from converting A to C beyond the proved rounding bound",
                    {"A": canon(u), "B": canon(x), "C": canon(y),
-                    "ulps": None if None in (r2, r3) else ulp_dist(r2, r3)},
+                    "ulps": None if None in (r2, r3) else ulp_dist(r2, r3),
+                    "bound": None if bound is None else float(bound), "error": None if err is None else float(err),
+                    "theorem": why},
                    [(a, b, v), (a, cc, v)] + ([(b, cc, r1)] if r1 is not None else []))
     # ---- L7 different categories never convert
     for a, b, v in plan_cross:
@@ -730,6 +931,26 @@ def run_builtin_stream(h, res, tb):
     return out
 
 
+def check_bound_tables(res):
+    """the constants of the proved temperature bounds, printed by Coq (UnitsFloat2.v temp_tables / tcomp_tables), must be
+    the tolerances this check uses (TEMP_AB / TCOMP_AB)"""
+    order = ["TF_kelvin_to_kelvin", "TF_celsius_to_kelvin", "TF_fahrenheit_to_kelvin"]
+    want1 = [str(x) for a in order for b in order for x in TEMP_AB[(a, b)]]
+    want2 = [str(x) for a in order for b in order for d in order for x in TCOMP_AB[(a, b, d)]]
+    try:
+        mo = c.coq_eval_batch(REQS + ["Blots.proofs.UnitsFloat", "Blots.proofs.UnitsFloat2"], "",
+                              ["join_comma (map show_Z temp_tables)", "join_comma (map show_Z tcomp_tables)"], "c17t")
+    except c.BrokenTie as e:
+        res.tie_broken(e.what, e.detail)
+        return None
+    ok = mo[0] == ",".join(want1) and mo[1] == ",".join(want2)
+    if not ok:
+        res.tie_broken("the temperature tolerances of the implementation-level search (checks/c17.py TEMP_AB / TCOMP_AB) are "
+                       "not the constants of the proved bounds (UnitsFloat2.v temp_AZ/temp_BZ/tcomp_AZ/tcomp_BZ)",
+                       "coq: %r / %r" % (mo[0], mo[1]))
+    return ok
+
+
 # ----------------------------------------------------------------------------- known findings
 def replay_known(e, impl, h):
     """re-run the witness of an open known finding on the implementation; True = still reproduces"""
@@ -842,6 +1063,7 @@ def main(argv):
         res.tie_broken("correspondence C17/BUILTIN: model and implementation disagree on %d of %d argument tuples"
                        % (len(bs["mism"]), bs["cases"]), "first: %s model=%s impl=%s" % ([x[0] for x in cs], m, o))
 
+    tables_ok = check_bound_tables(res)
     # ---- the laws on the implementation alone (always run)
     L = law_search(tb, impl, res, rng, tier, known, rs["pool"])
     c.log("BUILTIN stream + law search %.1fs" % (time.time() - t0))
@@ -878,7 +1100,22 @@ def main(argv):
     res.coverage["exhaustive_table_theorems"]["prefix_pairs_in_theorems"] = bs["coq_prefix_pairs"]
     res.coverage["exhaustive_table_theorems"]["identifiers_listed_for_two_units"] = bs["coq_dup_idents"]
     res.streams["IMPL-LAWS"] = {"checked": L.counts, "known_finding_hits": L.known_hits, "prefix_pairs": L.prefix_pairs,
-                                "impl_calls": impl.calls, "failures": L.fail_count}
+                                "impl_calls": impl.calls, "failures": L.fail_count,
+                                "float_tolerances": {
+                                    "rule": "there-and-back and composition are compared in exact rational arithmetic against "
+                                            "the bounds PROVED in coq/Properties/C17.v (tolerance = proved bound)",
+                                    "there-and-back linear/linear": "|r-v| <= ((1+2^-53)^4 - 1)|v|  (C17_there_and_back_float_linear_table)",
+                                    "there-and-back with a reciprocal unit": "|r-v| <= (qq^4 - 1)|v|, qq = 1/(1-2^-53)  (C17_there_and_back_float_table)",
+                                    "there-and-back temperature": "|r-v| <= 2^-53 (1+1/1024)(A|v|+B), (A,B) = " +
+                                        ", ".join("%s>%s:%s" % (k[0][3:4].upper(), k[1][3:4].upper(), v) for k, v in sorted(TEMP_AB.items())) +
+                                        "  (C17_there_and_back_float_temperature)",
+                                    "composition linear/reciprocal": "|fl(A>B>C)-fl(A>C)| <= (qq^6 - 1)|fl(A>C)|  (C17_composition_float_table)",
+                                    "composition temperature": "|fl(A>B>C)-fl(A>C)| <= 2^-53 (1+1/1024)(A|v|+B), 27 (A,B) pairs "
+                                                               "(checks/c17.py TCOMP_AB = UnitsFloat2.v tcomp_A/tcomp_B)  (C17_composition_float_temperature)",
+                                    "temperature constants equal the Coq tables (checked by vm_compute this run)": tables_ok,
+                                    "decided_by": L.tol,
+                                    "largest observed error / proved bound": L.tol_ratio,
+                                    "there-and-back pairs by kind": getattr(L, "kind_pairs", {})}}
     res.assumptions = [
         "Rust str::to_lowercase is modelled on ASCII plus the non-ASCII characters of the table (dumped map); the table's "
         "own lower-cased identifiers are dumped from Rust and proved equal to the model's (lower_consistent)",
